@@ -11,11 +11,18 @@ mkdir -p /tmp/scratch
 git -C /repo worktree add -q --detach "$wt" HEAD || exit 4
 cleanup() { git -C /repo worktree remove --force "$wt" >/dev/null 2>&1; rm -f /verif/.build/*-alt-* /verif/.build/alt-*; }
 trap cleanup EXIT
+case "$patch" in revert:*)
+	h=${patch#revert:}
+	git -C "$wt" -c user.email=x@x -c user.name=x revert --no-commit "$h" >/dev/null 2>&1 || { echo "RESULT patch=$patch REVERT-CONFLICT"; exit 4; }
+	;;
+*)
 if [ "$rev" = reverse ]; then
 	git -C "$wt" apply -R --3way "$patch" >/dev/null 2>&1 || git -C "$wt" apply -R "$patch" || { echo "RESULT patch=$patch APPLY-FAILED"; exit 4; }
 else
 	git -C "$wt" apply "$patch" || { echo "RESULT patch=$patch APPLY-FAILED"; exit 4; }
 fi
+;;
+esac
 (cd "$wt" && go build ./... ) || { echo "RESULT patch=$patch BUILD-FAILED"; exit 4; }
 suite=pass
 (cd "$wt" && go test -vet=off -count=1 ./... >/tmp/scratch/suite-$$.log 2>&1) || suite=FAIL
